@@ -110,6 +110,26 @@ def nontrivial(prop, res):
     return False
 
 
+def delivered_texts(trace):
+    return ["".join(chr(x) for x in e[3]) for e in trace if e[0] == 19 and e[1] == 7]
+
+
+def out_of_order(case, trace):
+    """index of the first T_INPUT whose text cannot be matched, in typed order, after the lines delivered before it
+    (None: the deliveries are typed lines in typed order; EOF counts as the empty line)"""
+    typed = ["".join(chr(x) for x in t[0]) if t else "" for t in case[2]]
+    pos = 0
+    for k, e in enumerate(trace):
+        if e[0] == 19 and e[1] == 7:
+            text = "".join(chr(x) for x in e[3])
+            while pos < len(typed) and typed[pos] != text:
+                pos += 1
+            if pos == len(typed):
+                return k if text in typed else None        # a text that was never typed is the acceptor's business
+            pos += 1
+    return None
+
+
 def classify(prop, case, res, idx, model=None):
     ev = res[1][idx]
     kind = UT.get(ev[1], str(ev[1])) if ev[0] == 19 else EV.get(ev[0], str(ev[0]))
@@ -274,6 +294,16 @@ def run(chk, tier, prop):
             key = classify(prop, c, i, v[1], m)
             chk.violation(key, "%s acceptor rejects the implementation's own trace at event %d: %s" % (prop, v[1], show(i[1][v[1]])),
                           dict(kind="screen", prop=prop, case=c, rejected_index=v[1], trace=pretty(i[1], v[1])), found=True)
+            nbad += 1
+        elif prop == "C06" and out_of_order(c, i[1]) is not None:
+            # "lines are delivered in the order typed", evaluated directly on the implementation's trace: the texts of the
+            # successful deliveries, in delivery order, must be typed lines in typed order
+            k = out_of_order(c, i[1])
+            same = (m[1][:k + 1] == i[1][:k + 1])
+            key = "lines-out-of-order:ready-signal-waits-in-outer-level" if same else "C06:lines-out-of-order"
+            chk.violation(key, "C06: a typed line is delivered before an earlier one (event %d: %s); delivered so far: %r"
+                          % (k, show(i[1][k]), delivered_texts(i[1][:k + 1])),
+                          dict(kind="screen", prop=prop, case=c, rejected_index=k, trace=pretty(i[1], k)), found=True)
             nbad += 1
         elif project(prop, i[:4]) != project(prop, m[:4]):
             pi, pm = project(prop, i[:4]), project(prop, m[:4])
